@@ -358,10 +358,14 @@ def stats(rep, cmod):
 
 
 def depends(rep, repo):
-    """Cell substitution is one of the edit operations of this property: its pin/back-reference rules (C10.pins, C10.keys,
-    C10.names) are part of this check."""
+    """Cell substitution, fork elimination, copy and pickle are edit operations of this property: their rules (C10.pins,
+    C10.keys, C10.names, C10.elim, C10.copy, C10.pickle) are part of this check."""
     from checks import c10
     c10.substitute_rules(rep, repo, repo.mod('circuit'))
+    # eliminating 1:1 forks, copying and pickling are edit operations of this property as well
+    c10.elim_rules(rep, repo.mod('circuit'))
+    c10.copy_rules(rep, repo.mod('circuit'))
+    c10.pickle_rules(rep, repo.mod('circuit'))
 
 
 def thorough(rep, repo):
